@@ -293,7 +293,7 @@ impl CallingConvention {
                 preserved_registers.insert(il::scalar("$s5", 32));
                 preserved_registers.insert(il::scalar("$s6", 32));
                 preserved_registers.insert(il::scalar("$s7", 32));
-                preserved_registers.insert(il::scalar("$s8", 32));
+                preserved_registers.insert(il::scalar("$fp", 32)); // $s8, which the lifter names $fp
                 preserved_registers.insert(il::scalar("$sp", 32));
                 preserved_registers.insert(il::scalar("$ra", 32));
 
